@@ -345,18 +345,44 @@ func buildOverlay(hs []HarnessCfg, native bool) (map[string][]byte, []string) {
 func loadProgram(hs []HarnessCfg) (*ssa.Program, map[string]*ssa.Package, time.Duration, error) {
 	t0 := time.Now()
 	overlay, pats := buildOverlay(hs, false)
-	cfg := &packages.Config{Mode: packages.LoadAllSyntax, Dir: repoDir, Overlay: overlay,
-		Env: append(os.Environ(), "GOFLAGS=-mod=mod", "GOPROXY=off", "GOSUMDB=off", "GOTOOLCHAIN=local", "GOWORK=off")}
-	pkgs, err := packages.Load(cfg, pats...)
-	if err != nil {
-		return nil, nil, 0, err
-	}
+	var pkgs []*packages.Package
 	var errs []string
-	packages.Visit(pkgs, nil, func(p *packages.Package) {
-		for _, e := range p.Errors {
-			errs = append(errs, e.Error())
+	// A harness file that no longer compiles against the current tree (a signature it uses was changed) is
+	// dropped and the load repeated, so that the harnesses living in other files still run; the harnesses
+	// of a dropped file are then reported as out of date (INCONCLUSIVE), never silently skipped.
+	for round := 0; round < 4; round++ {
+		cfg := &packages.Config{Mode: packages.LoadAllSyntax, Dir: repoDir, Overlay: overlay,
+			Env: append(os.Environ(), "GOFLAGS=-mod=mod", "GOPROXY=off", "GOSUMDB=off", "GOTOOLCHAIN=local", "GOWORK=off")}
+		var err error
+		pkgs, err = packages.Load(cfg, pats...)
+		if err != nil {
+			return nil, nil, 0, err
 		}
-	})
+		errs = nil
+		bad := map[string]bool{}
+		onlyHarness := true
+		packages.Visit(pkgs, nil, func(p *packages.Package) {
+			for _, e := range p.Errors {
+				errs = append(errs, e.Error())
+				file := e.Pos
+				if i := strings.Index(file, ":"); i >= 0 {
+					file = file[:i]
+				}
+				if _, ok := overlay[file]; ok && strings.HasPrefix(filepath.Base(file), "zz_verif_h_") {
+					bad[file] = true
+				} else {
+					onlyHarness = false
+				}
+			}
+		})
+		if len(errs) == 0 || !onlyHarness || len(bad) == 0 {
+			break
+		}
+		for f := range bad {
+			fmt.Printf("NOTE: harness file %s does not compile against the current tree and is left out: %s\n", strings.TrimPrefix(filepath.Base(f), "zz_verif_"), trunc(firstErrIn(errs, f), 200))
+			delete(overlay, f)
+		}
+	}
 	if len(errs) > 0 {
 		if len(errs) > 8 {
 			errs = errs[:8]
@@ -539,4 +565,13 @@ func newMachine(prog *ssa.Program, ex *Explorer, cfg *HarnessCfg) *Machine {
 	return &Machine{prog: prog, ex: ex, cfg: cfg, globals: map[*ssa.Global]*Cell{}, maxDepth: 200, maxSteps: 20000000,
 		funcsRun: map[*ssa.Function]bool{}, stubsRun: map[string]int{}, overrides: map[string]Func{}, ovrUsed: map[string]int{},
 		locks: map[*Cell]*lockState{}, sideStr: map[*Cell]Str{}, initDone: map[*ssa.Package]bool{}, modPrefix: modPath, notes: map[string]Val{}}
+}
+
+func firstErrIn(errs []string, file string) string {
+	for _, e := range errs {
+		if strings.Contains(e, file) {
+			return e
+		}
+	}
+	return ""
 }
